@@ -326,14 +326,14 @@ def _do_env(b):
 def _do_obj(job):
     """Replay call sequences of spec/EcdsaObj.tla on real Signature objects: before every action what the object reports
     as its key and digest, and the verdict of every verify call."""
-    from bitcoinlib.keys import sign, Signature, Key, HDKey
+    from bitcoinlib.keys import sign, Signature, Key, HDKey, verify
     ds = {1: int(job['keys']['1'], 16), 2: int(job['keys']['2'], 16)}
     zs = {1: bytes.fromhex(job['zs']['1']), 2: bytes.fromhex(job['zs']['2'])}
     pubs = {i: ref.ser_point(c13_ec.mul_G(ds[i])) for i in (1, 2)}
     base, facts = {}, {}
     for signer in (1, 2):
         sg = sign(zs[1], Key(job['keys'][str(signer)]))
-        base[signer] = (int(sg.r), int(sg.s), bytes(sg.as_der_encoded()))
+        base[signer] = (int(sg.r), int(sg.s), bytes(sg.as_der_encoded()), bytes(sg.bytes()))
         facts[signer] = [[bool(c13_ec.ecdsa_verify(c13_ec.mul_G(ds[k]), int.from_bytes(zs[z], 'big'), int(sg.r), int(sg.s)))
                           for z in (1, 2)] for k in (1, 2)]
 
@@ -364,7 +364,7 @@ def _do_obj(job):
     for n, q in enumerate(job['seqs']):
         c = q['c']
         signer = 2 if c == 'init-k1-signed-by-k2' else 1
-        r, s, der = base[signer]
+        r, s, der, raw = base[signer]
         try:
             if c == 'sign':
                 sg = sign(zarg(1, n), Key(job['keys']['1']))
@@ -382,16 +382,26 @@ def _do_obj(job):
         evs = []
         for j, act in enumerate(q['calls']):
             pki, tzi = report(sg)
-            ev = {'a': act['a'], 'z': act['z'], 'k': act['k'], 'pk': pki, 'tz': tzi, 'obs': ''}
+            ev = {'a': act['a'], 'via': act['via'], 'z': act['z'], 'k': act['k'], 'pk': pki, 'tz': tzi, 'obs': ''}
             try:
                 if act['a'] == 'verify':
-                    args = {}
-                    if act['z']:
-                        args['txid'] = zarg(act['z'], n + j)
-                    if act['k']:
-                        args['public_key'] = keyarg(act['k'], n + j)
+                    za = zarg(act['z'], n + j) if act['z'] else None
+                    ka = keyarg(act['k'], n + j) if act['k'] else None
+                    via = act['via']
                     try:
-                        ev['obs'] = 'accept' if sg.verify(**args) is True else 'reject'
+                        if via == 'method':             # the object's own method, omitted arguments really omitted
+                            args = {}
+                            if za is not None:
+                                args['txid'] = za
+                            if ka is not None:
+                                args['public_key'] = ka
+                            ok = sg.verify(**args)
+                        elif via == 'module-object':    # the module-level function handed the object
+                            ok = verify(za, sg, ka) if ka is not None else verify(za, sg)
+                        else:                           # the module-level function handed a serialized signature
+                            ser = {'module-raw': raw, 'module-der': der, 'module-hex': der.hex(), 'module-der-noht': der[:-1]}[via]
+                            ok = verify(za, ser, ka) if ka is not None else verify(za, ser)
+                        ev['obs'] = 'accept' if ok is True else 'reject'
                     except Exception:
                         ev['obs'] = 'reject'
                 elif act['a'] == 'setkey':
@@ -787,7 +797,16 @@ def run(replay=None):
         grecs += [{'k': 'envgen', 'plans': ['random', 'mixed'], 'maxlen': 5 if thorough else 4},
                   {'k': 'envgen', 'plans': ['det', 'explicit'], 'maxlen': 4 if thorough else 3}]
         # one Signature object as a state machine (EcdsaObj): TLC enumerates the call sequences
-        grecs += [{'k': 'objgen', 'maxlen': 4 if thorough else 3}]
+        allc = ['sign', 'rs', 'parse-k1', 'parse-k2', 'init-k1-signed-by-k2']
+        if thorough:
+            parts = [{'routes': 'object', 'maxlen': 3, 'cons': ['sign', 'init-k1-signed-by-k2', 'parse-k2']},
+                     {'routes': 'all', 'maxlen': 2, 'cons': allc},
+                     {'routes': 'method', 'maxlen': 4, 'cons': ['sign', 'init-k1-signed-by-k2']},
+                     {'routes': 'method', 'maxlen': 3, 'cons': allc}]
+        else:
+            parts = [{'routes': 'all', 'maxlen': 1, 'cons': allc}, {'routes': 'all', 'maxlen': 2, 'cons': ['sign']},
+                     {'routes': 'object', 'maxlen': 2, 'cons': allc}, {'routes': 'method', 'maxlen': 3, 'cons': allc}]
+        grecs += [{'k': 'objgen', 'parts': parts}]
         gout = spread_eval(grecs, PROCS // 2)
         gen, den = gout[:len(bases)], gout[len(bases):len(bases) + len(muts)]
         oseqs = gout[-1]['seqs']
@@ -933,13 +952,13 @@ def run(replay=None):
     for job, res in zip(objjobs, obj_res):
         for q, o in zip(job['seqs'], res):
             one = dict(job, seqs=[q])
-            klass = ('obj', q['c'], tuple((a['a'], a['z'], a['k']) for a in q['calls']))
+            klass = ('obj', q['c'], tuple((a['a'], a['via'], a['z'], a['k']) for a in q['calls']))
             if o.get('refused'):
                 ck.case(klass)
                 ck.violation(None, 'Signature object %s: clause construction-refused; %s' % (q['c'], o.get('err')), {'kind': 'obj', 'job': one})
                 continue
             orecs.append({'k': 'objtrace', 'c': q['c'], 'fact': o['fact'],
-                          'events': [{k: e[k] for k in ('a', 'z', 'k', 'pk', 'tz', 'obs')} for e in o['events']]})
+                          'events': [{k: e[k] for k in ('a', 'via', 'z', 'k', 'pk', 'tz', 'obs')} for e in o['events']]})
             oidx.append((one, q, o, klass))
     allverd = spread_eval(recs + vrecs + erecs + orecs, PROCS)
     n1, n2, n3 = len(recs), len(recs) + len(vrecs), len(recs) + len(vrecs) + len(erecs)
@@ -1011,7 +1030,8 @@ def run(replay=None):
 def obj_short(calls):
     def one(a):
         if a['a'] == 'verify':
-            return 'verify(%s, %s)' % ('z%d' % a['z'] if a['z'] else '-', 'key%d' % a['k'] if a['k'] else '-')
+            return '%s(%s, %s)' % ({'method': 'sig.verify', 'module-object': 'verify[sig object]'}.get(a['via'], 'verify[' + a['via'][7:] + ']'),
+                                   'z%d' % a['z'] if a['z'] else '-', 'key%d' % a['k'] if a['k'] else '-')
         return 'public_key=key%d' % a['k'] if a['a'] == 'setkey' else 'txid=z%d' % a['z']
     return ' ; '.join(one(a) for a in calls)
 
